@@ -3,6 +3,7 @@ C17 — lemmas for the container theorems (PropsBpki.lean).  No Mathlib.
 -/
 import Bee2V.C17.ModelBpki
 import Bee2V.C17.Laws
+import Bee2V.C01.PropsWbl
 namespace Bee2V.C17
 open Bee2V.Gen.C17Src
 
